@@ -52,3 +52,36 @@ def hostLineCarveOut (line : Bytes) : Bool :=
    | none => false)
 
 end UF
+
+namespace UF
+open Bytes
+
+/-! ### The line grammar of the property, as text builders and side conditions -/
+
+def blankFree (s : Bytes) : Bool := s.all fun c => !isBlank c
+def hashFree (s : Bytes) : Bool := s.all fun c => c != ch '#'
+def allBlank (s : Bytes) : Bool := s.all isBlank
+
+/-- A name (or an address text): non-empty, without blanks and without '#'. -/
+def isHostToken (n : Bytes) : Bool := !n.isEmpty && blankFree n && hashFree n
+/-- `(sp|tab)+`. -/
+def isBlankRun (w : Bytes) : Bool := !w.isEmpty && allBlank w
+/-- `[ '#' any ]`. -/
+def isCommentTail (c : Bytes) : Bool := c.isEmpty || c.head? == some (ch '#')
+
+/-- `((sp|tab)+ name)*` from the list of (blank run, name) pairs. -/
+def namesText : List (Bytes × Bytes) → Bytes
+  | [] => []
+  | (w, n) :: rest => w ++ n ++ namesText rest
+
+/-- `IP (sp|tab)+ name ((sp|tab)+ name)* ws* [ '#' any ]`. -/
+def hostLineIP (ip : Bytes) (wn : List (Bytes × Bytes)) (trail cmt : Bytes) : Bytes :=
+  ip ++ namesText wn ++ trail ++ cmt
+
+/-- `name ws* [ '#' any ]`. -/
+def hostLineBare (name trail cmt : Bytes) : Bytes := name ++ trail ++ cmt
+
+def goodPairs (wn : List (Bytes × Bytes)) : Bool :=
+  wn.all fun p => isBlankRun p.1 && isHostToken p.2
+
+end UF
